@@ -9,6 +9,8 @@
 //   * --replay: run one saved case directly through the body, bypassing rapidcheck
 #pragma once
 #include <rapidcheck.h>
+#include <thread>
+#include <atomic>
 #include <cstdint>
 #include <cstdio>
 #include <cstdlib>
@@ -74,7 +76,7 @@ struct Ctx {
     bool fail(const std::string &w) { why = w; return false; }
 };
 
-typedef bool (*Body)(const Case &, Ctx &);
+typedef std::function<bool(const Case &, Ctx &)> Body;
 typedef std::string (*Describe)(const Case &);
 
 struct PropDef {
@@ -89,7 +91,49 @@ struct PropDef {
     // enum_count() cases, enum_at(i) builds the i-th payload
     std::function<uint64_t()> enum_count = nullptr;
     std::function<std::vector<uint64_t>(uint64_t)> enum_at = nullptr;
+    // the body keeps no state of its own between or across calls (no static buffers, no probes of process-wide state): it may be run by several
+    // threads at once; harness_main then derives the property "<name>@mt" (concurrent callers, selected with --mt)
+    bool mt_ok = false;
 };
+// true while a body runs as one of several concurrent callers (bodies use it to leave out features that are not meant for that: persistent
+// buffers shared between cases, the static-storage checksum)
+inline bool &in_concurrent() { static thread_local bool f = false; return f; }
+// K payloads of the base property, run by K threads at the same time, each thread checking its own results (ROUNDS repetitions from a common start):
+// a pure function must give every caller its own result no matter who else is inside it (hidden static scratch buffers, one-entry caches, lazily
+// initialised tables). Under ThreadSanitizer the mere existence of an unsynchronised shared access is reported; on plain builds wrong values are.
+inline PropDef concurrent_of(const PropDef &b, int K = 4, int rounds = 6)
+{
+    PropDef p;
+    p.name = b.name + "@mt"; p.weight = b.weight; p.forked = false; p.describe = nullptr; p.max_size = b.max_size;
+    auto bgen = b.gen; Body bb = b.body; std::string bname = b.name;
+    p.gen = [bgen, K] {
+        // half of the cases: every caller has its own operands; the other half: all callers pass the SAME operand values (each in its own
+        // storage) -- a lazily initialised table or a cache keyed on the operands is then first touched by all of them at once
+        return rc::gen::apply([K](const std::vector<std::vector<uint64_t>> &vs, int same) {
+            std::vector<uint64_t> out; out.push_back(vs.size());
+            for (auto &v : vs) { const std::vector<uint64_t> &w = same ? vs[0] : v; out.push_back(w.size()); out.insert(out.end(), w.begin(), w.end()); }
+            return out; }, rc::gen::container<std::vector<std::vector<uint64_t>>>((std::size_t)K, bgen()), rc::gen::inRange(0, 2));
+    };
+    p.body = [bb, bname, rounds](const Case &c, Ctx &ctx) -> bool {
+        std::vector<Case> subs; size_t pos = 1;
+        for (uint64_t k = 0; k < c.v[0] && pos < c.v.size(); k++) { size_t len = (size_t)c.v[pos++]; Case s; s.prop = bname; s.v.assign(c.v.begin() + pos, c.v.begin() + pos + len); pos += len; subs.push_back(s); }
+        const int K = (int)subs.size();
+        std::vector<std::string> whys(K); std::vector<char> ok(K, 1); std::atomic<int> ready{0};
+        auto worker = [&](int i) {
+            in_concurrent() = true; ready++;
+            while (ready.load() < K) { /* common start */ }
+            for (int r = 0; r < rounds && ok[i]; r++) { Ctx local; if (!bb(subs[i], local)) { ok[i] = 0; whys[i] = local.why; } }
+            in_concurrent() = false;
+        };
+        std::vector<std::thread> th;
+        for (int i = 0; i < K; i++) th.emplace_back(worker, i);
+        for (auto &t : th) t.join();
+        ctx.nt("callers:several-threads-inside-the-routine-at-once");
+        for (int i = 0; i < K; i++) if (!ok[i]) return ctx.fail("caller " + std::to_string(i) + " of " + std::to_string(K) + " concurrent callers (each thread with its own operands and its own output): " + whys[i] + " [its case: " + subs[i].str() + "]");
+        return true;
+    };
+    return p;
+}
 
 struct Stats {
     uint64_t evaluations = 0, shrink_evals = 0, nontrivial = 0, excluded = 0;
@@ -132,7 +176,7 @@ inline Shared *shared_page()
 }
 inline int &fork_timeout() { static int t = 120; return t; }
 
-inline bool run_forked(Body body, const Case &c, Ctx &ctx)
+inline bool run_forked(const Body &body, const Case &c, Ctx &ctx)
 {
     Shared *sh = shared_page();
     memset(sh, 0, sizeof *sh);
@@ -190,6 +234,7 @@ inline bool run_forked(Body body, const Case &c, Ctx &ctx)
 struct Options {
     uint64_t cases = 1000, seed = 1, worker = 0;
     std::string out, replay, only, hashdump, faildir = ".";
+    bool mt = false;   // --mt: run the derived concurrent-caller properties ("<name>@mt") instead of the plain ones
     std::vector<std::string> excludes;
     bool nofork = false, forkall = false, enumerate = false, crash_only = false;
     uint64_t nworkers = 1, enum_stride = 1;
@@ -281,6 +326,7 @@ inline int harness_main(int argc, char **argv, const char *harness, std::vector<
         else if (a == "--worker") o.worker = strtoull(nxt().c_str(), 0, 0);
         else if (a == "--out") o.out = nxt();
         else if (a == "--replay") o.replay = nxt();
+        else if (a == "--mt") o.mt = true;
         else if (a == "--only") o.only = nxt();
         else if (a == "--hashdump") o.hashdump = nxt();
         else if (a == "--faildir") o.faildir = nxt();
@@ -297,6 +343,7 @@ inline int harness_main(int argc, char **argv, const char *harness, std::vector<
         else if (a == "--list") { for (auto &p : props) printf("%s\n", p.name.c_str()); return 0; }
         else { fprintf(stderr, "unknown arg %s\n", a.c_str()); return 2; }
     }
+    { std::vector<PropDef> derived; for (auto &p : props) if (p.mt_ok) derived.push_back(concurrent_of(p)); for (auto &d : derived) props.push_back(d); }
     auto t0 = std::chrono::steady_clock::now();
     watchdog_start(fork_timeout() + 60);
     if (!o.casefile.empty()) {
@@ -335,6 +382,8 @@ inline int harness_main(int argc, char **argv, const char *harness, std::vector<
     { std::stringstream ss(o.only); std::string t; while (std::getline(ss, t, ',')) if (!t.empty()) selected.push_back(t); }
     double wsum = 0;
     auto is_sel = [&](const PropDef &p) {
+        const bool ismt = p.name.size() > 3 && p.name.compare(p.name.size() - 3, 3, "@mt") == 0;
+        if (ismt != o.mt) return false;
         if (selected.empty()) return true;
         for (auto &s : selected) if (p.name == s || p.name.rfind(s, 0) == 0) return true;
         return false;
@@ -376,7 +425,7 @@ inline int harness_main(int argc, char **argv, const char *harness, std::vector<
         bool seen_fail = false;
         Case lastfail; std::string lastwhy;
         std::vector<Case> recent; std::vector<std::string> lasthist; // in-process runs: the executions preceding a failure (a failure may depend on earlier calls)
-        const size_t HIST = 64; size_t rpos = 0;
+        const size_t HIST = 400; size_t rpos = 0; // (state left behind by ANOTHER routine may be hundreds of calls old when it bites)
         auto gen = p.gen();
         // shrinking is bounded: after the first failure at most SHRINK_EVALS further executions or SHRINK_SECONDS of wall time are spent on
         // minimisation; beyond that every candidate counts as passing, which ends rapidcheck's shrink loop at the smallest failing case found
